@@ -51,10 +51,40 @@ type gameFlags struct {
 	history bool // C08 oracle
 }
 
+// heldPos is a position handed out by a board earlier in the session, with the value it had then.
+type heldPos struct {
+	ptr  *board.Position
+	val  posView
+	when string
+}
+
+// posView is what a position reports through its API (not its representation, which may hold caches).
+type posView struct {
+	pieces [2][6]board.Bitboard
+	all    board.Bitboard
+	rights board.Castling
+	ep     board.Square
+	hasEP  bool
+}
+
+func viewOf(p *board.Position) posView {
+	var v posView
+	for ci, col := range []board.Color{board.White, board.Black} {
+		for pi, pc := range board.AllPieces {
+			v.pieces[ci][pi] = p.Piece(col, pc)
+		}
+	}
+	v.all = p.All()
+	v.rights = p.Castling()
+	v.ep, v.hasEP = p.EnPassant()
+	return v
+}
+
 type gameMon struct {
 	c      *fw.Ctx
 	fl     gameFlags
 	tracks []*track
+	held   []heldPos // positions obtained from Board.Position() and kept (as evaluators, forks and callers do)
 	// C07: global maps for this zobrist seed
 	keyHash map[string]board.ZobristHash
 	hashKey map[board.ZobristHash]string
@@ -82,6 +112,10 @@ func (gm *gameMon) observe(t *track, op string) {
 	if cur.Key() != t.g.Cur.Key() {
 		c.Violate("game:position", "after %s board position %q differs from the rules' %q: %s", op, cur.Key(), t.g.Cur.Key(), gm.desc(t))
 		return
+	}
+	if gm.fl.history && len(gm.held) < 2048 {
+		ptr := b.Position()
+		gm.held = append(gm.held, heldPos{ptr: ptr, val: viewOf(ptr), when: fmt.Sprintf("track %d after %s at ply %d", t.id, op, b.Ply())})
 	}
 	if gm.fl.hash {
 		c.Eval(1)
@@ -376,9 +410,24 @@ func (gm *gameMon) fork(t *track) *track {
 	return n
 }
 
+// heldUnchanged: a position a board handed out is a value; whatever is played or taken back later, on that
+// board or on a fork, it must still read as it did.
+func (gm *gameMon) heldUnchanged() {
+	for i, h := range gm.held {
+		gm.c.Eval(1)
+		if now := viewOf(h.ptr); now != h.val {
+			gm.c.Violate("history:position-mutated", "the position handed out by Board.Position() (%s) now reads differently: %q (pieces/rights/e.p. then %v, now %v): %s", h.when, h.ptr.String(), h.val, now, gm.desc(gm.tracks[0]))
+			gm.held[i].val = now
+			break
+		}
+	}
+	gm.c.Count("held_positions_checked", len(gm.held))
+}
+
 // scratchCompare rebuilds the track's line on a fresh board and compares (C08: play continues identically).
 func (gm *gameMon) scratchCompare(t *track) {
 	c := gm.c
+	gm.heldUnchanged()
 	s, err := adapt.Board(t.zt, t.g.Start)
 	if err != nil {
 		return
